@@ -14,17 +14,65 @@ Definition model_obs_bytes (c : case_bytes) : list N :=
   [blen (bw_file (bw_final bufwriter_capacity (bw_at []) [WWrite line]));
    blen (bw_file (bw_final bufwriter_capacity (bw_at []) [WWrite line; WFlush]))].
 
+(* ---------- histories with the second round of harness operations (builder log02b) ----------
+   K k            a call / full-sidecar fault / restart of Model/ContStore.v
+   KDerivedFault  a fault on ONE derived cache file of a thread (.mr / .comp sidecars, seek / message /
+                  ordinal / checkpoint indexes): the model keeps the full sidecar only, and what a
+                  capability appends is a function of the call and its facts - the model's claim is that
+                  the state of those files does not matter for the log
+   KSideGarbage   a line of garbage appended to (mid = false) / inserted in the middle of (mid = true)
+                  the full sidecar of thread th
+   KAge           the store is closed, every frame's timestamp moved into the past (or future) and the
+                  store opened again; the model has no clock: a restart *)
+Inductive call2 :=
+| K (k : call)
+| KDerivedFault
+| KSideGarbage (mid : bool) (th : nat)
+| KAge.
+
+Definition garbage_lines (mid : bool) (ls : list sline) : list sline :=
+  if mid then firstn (Nat.div2 (length ls)) ls ++ SJunk :: skipn (Nat.div2 (length ls)) ls
+  else ls ++ [SJunk].
+
+Definition side_garbage (sd : N -> option (list sline)) (mid : bool) (c : N) : N -> option (list sline) :=
+  match sd c with
+  | Some ls => upd sd c (Some (garbage_lines mid ls))
+  | None => sd
+  end.
+
+Definition do_call2 (st : state) (k : call2) : state :=
+  match k with
+  | K k' => do_call st k'
+  | KDerivedFault => st
+  | KSideGarbage mid th => with_side st (side_garbage (s_side st) mid (nth_thread (s_log st) th))
+  | KAge => restart st
+  end.
+
+Fixpoint run_calls2 (st : state) (ks : list call2) : list N * state :=
+  match ks with
+  | [] => ([], st)
+  | k :: r => let st' := do_call2 st k in
+              let '(ns, fin) := run_calls2 st' r in (nlen (s_log st') :: ns, fin)
+  end.
+
+Record case02b := { c2b_calls : list call2; c2b_expect : list N }.
+Definition model_obs_c02b (c : case02b) : list N :=
+  let '(ns, fin) := run_calls2 empty_state (c2b_calls c) in ns ++ canon_log (s_log fin).
+
 Inductive case02x :=
 | CStore (c : case02)
+| CStore2 (c : case02b)
 | CBytes (c : case_bytes).
 
 Definition model_obs_c02x (c : case02x) : list N :=
   match c with
   | CStore s => model_obs_c02 s
+  | CStore2 s => model_obs_c02b s
   | CBytes b => model_obs_bytes b
   end.
 Definition check_case_c02x (c : case02x) : bool :=
   match c with
   | CStore s => check_case_c02 s
+  | CStore2 s => lN_eqb (model_obs_c02b s) (c2b_expect s)
   | CBytes b => lN_eqb (model_obs_bytes b) (cb_expect b)
   end.
